@@ -96,63 +96,56 @@ const char *g_msg_fmt;
 /* Oracle ("prophecy") ghosts: the harness chooses, before the call, the length every piece's complete text will have
  * (g_L[piece], any int; negative = the call fails) and the outcome of the timestamp conversion (g_dlen characters, or
  * failure g_derr).  They are unconstrained, so every behaviour of the callees is covered, and they make the bytes a
- * callee stores expressible in the pre-state: the assigns clauses name exactly the bytes the proof looks at (the
- * terminator, the witness byte g_w, the newline) instead of havocking a range of symbolic length (which costs minutes
- * in the SAT back end).  The other text bytes keep their arbitrary initial value; the unit under proof never reads the
- * line buffer, it only passes pointers into it.  That the whole range [s, s+n) handed to a callee lies inside the line
- * buffer is demanded by LINE_RANGE (same object as the line buffer + w_ok). */
+ * callee stores expressible in the pre-state.
+ *
+ * Stores are modelled PROJECTED ONTO THE WITNESS POSITION g_w: a callee that stores the text t[0..K) and a NUL at
+ * [s, s+K] changes line[g_w] iff g_w lies in that range, to 0 if it is the terminator's position, to '\n' if it is the
+ * first character of the "\n" piece, and to some non-NUL value otherwise.  g_w is arbitrary, and the postconditions of
+ * aws_format_standard_log_line read the line buffer at g_w only, so this is the for-all-positions statement (§4.3).
+ * (Havocking [s, s+n) or naming the terminator/newline bytes separately was tried first: symbolic-length havoc and
+ * ~40 symbolic byte indices cost > 7 min in the SAT back end; this form takes seconds.)
+ * What the projection gives up: bytes other than line[g_w] keep their arbitrary initial value in the model, i.e. the
+ * proof is for code that does not READ the line buffer (log_formatter.c only passes pointers into it).
+ * That the whole range [s, s+n) handed to a callee lies inside the line buffer is demanded by LINE_RANGE. */
 int g_L[8];
 size_t g_dlen;
 bool g_derr;
-const char *g_line; /* == fd->log_line_buffer (requires of aws_format_standard_log_line) */
+char *g_line; /* == fd->log_line_buffer (requires of aws_format_standard_log_line) */
 
 #define LINE_RANGE(s, n) ((n) == 0 || (__CPROVER_w_ok((s), (n)) && (g_fmt_on ==> __CPROVER_same_object((s), g_line))))
-#define WITNESS_IN(s, k) (g_w >= POFF(s) && g_w - POFF(s) < (k))
+/* g_w lies in [s, s+k] */
+#define WITNESS_IN(s, k) (g_w >= POFF(s) && g_w - POFF(s) <= (k))
+#define WITNESS_AT(s, k) (g_w >= POFF(s) && g_w - POFF(s) == (k))
+#define WITNESS_BELOW(s, k) (g_w >= POFF(s) && g_w - POFF(s) < (k))
+
+#define TEXT_CONTRACT(L, id, is_nl)                                                                                    \
+    __CPROVER_requires(LINE_RANGE(s, n))                                                                               \
+    __CPROVER_requires(PIECE_STARTS_AT_END(s))                                                                         \
+    __CPROVER_assigns(g_fmt_on && n > 0 && (L) >= 0 && WITNESS_IN(s, (size_t)(L)) && WITNESS_IN(s, n - 1) : g_line[g_w])          \
+    __CPROVER_assigns(g_end, g_trunc, g_err, g_pieces)                                                                 \
+    __CPROVER_ensures(RET == (L))                                                                                      \
+    __CPROVER_ensures(g_fmt_on && n > 0 && RET >= 0 && WITNESS_AT(s, STORED(RET, n)) ==> g_line[g_w] == 0)                         \
+    __CPROVER_ensures(g_fmt_on && n > 0 && RET >= 0 && WITNESS_BELOW(s, STORED(RET, n)) ==> g_line[g_w] != 0)                      \
+    __CPROVER_ensures(g_fmt_on && n >= 2 && (is_nl) && WITNESS_AT(s, 0) ==> g_line[g_w] == '\n')                                   \
+    __CPROVER_ensures(g_err == (OLD(g_err) || RET < 0))                                                                \
+    __CPROVER_ensures(g_trunc == (OLD(g_trunc) || (RET >= 0 && (size_t)RET >= n)))                                     \
+    __CPROVER_ensures(g_pieces == OLD(g_pieces) * 8 + (id))                                                            \
+    __CPROVER_ensures(n > 0 && RET >= 0 ==> g_end == POFF(s) + STORED(RET, n))                                         \
+    __CPROVER_ensures(!(n > 0 && RET >= 0) ==> g_end == OLD(g_end))
 
 #ifdef VERIF_HOOK_SNPRINTF
 /* g_L[5] == 3 and g_L[7] == 1 (formats without conversions yield their own length) is a requires of the caller */
-#    define L_OF(fmt) (g_L[F_ID(fmt)])
 int verif_snprintf(char *s, size_t n, const char *fmt)
 __CPROVER_requires(fmt != NULL && F_ID(fmt) != 0 && "one of the five formats of the standard log line")
-__CPROVER_requires(LINE_RANGE(s, n))
-__CPROVER_requires(PIECE_STARTS_AT_END(s))
-__CPROVER_assigns(n > 0 && L_OF(fmt) >= 0 && (size_t)L_OF(fmt) < n - 1 : s[L_OF(fmt)])
-__CPROVER_assigns(n > 0 && L_OF(fmt) >= 0 && (size_t)L_OF(fmt) >= n - 1 : s[n - 1])
-__CPROVER_assigns(n > 0 && L_OF(fmt) >= 0 && WITNESS_IN(s, (size_t)L_OF(fmt)) && WITNESS_IN(s, n - 1) : s[g_w - POFF(s)])
-__CPROVER_assigns(n >= 2 && F_NL(fmt) : s[0])
-__CPROVER_assigns(g_end, g_trunc, g_err, g_pieces)
-/* result */
-__CPROVER_ensures(RET == L_OF(fmt))
-/* stored text: terminator, no NUL before it (witness), "\n" is copied */
-__CPROVER_ensures(n > 0 && RET >= 0 ==> s[STORED(RET, n)] == 0)
-__CPROVER_ensures(n > 0 && RET >= 0 && WITNESS_IN(s, STORED(RET, n)) ==> s[g_w - POFF(s)] != 0)
-__CPROVER_ensures(F_NL(fmt) && n >= 2 ==> s[0] == '\n')
-/* ghost bookkeeping */
-__CPROVER_ensures(g_err == (OLD(g_err) || RET < 0))
-__CPROVER_ensures(g_trunc == (OLD(g_trunc) || (RET >= 0 && (size_t)RET >= n)))
-__CPROVER_ensures(g_pieces == OLD(g_pieces) * 8 + F_ID(fmt))
-__CPROVER_ensures(n > 0 && RET >= 0 ==> g_end == POFF(s) + STORED(RET, n))
-__CPROVER_ensures(!(n > 0 && RET >= 0) ==> g_end == OLD(g_end))
+TEXT_CONTRACT(g_L[F_ID(fmt)], F_ID(fmt), F_NL(fmt))
 ;
 #    define VERIF_FIRST_ARG(a, ...) a
 #    define snprintf(s, n, ...) verif_snprintf((s), (n), VERIF_FIRST_ARG(__VA_ARGS__, 0))
 #endif
 
 int vsnprintf(char *s, size_t n, const char *fmt, va_list ap)
-__CPROVER_requires(LINE_RANGE(s, n))
-__CPROVER_requires(PIECE_STARTS_AT_END(s))
-__CPROVER_assigns(n > 0 && g_L[P_MESSAGE] >= 0 && (size_t)g_L[P_MESSAGE] < n - 1 : s[g_L[P_MESSAGE]])
-__CPROVER_assigns(n > 0 && g_L[P_MESSAGE] >= 0 && (size_t)g_L[P_MESSAGE] >= n - 1 : s[n - 1])
-__CPROVER_assigns(n > 0 && g_L[P_MESSAGE] >= 0 && WITNESS_IN(s, (size_t)g_L[P_MESSAGE]) && WITNESS_IN(s, n - 1) : s[g_w - POFF(s)])
-__CPROVER_assigns(g_end, g_trunc, g_err, g_pieces, g_msg_fmt)
-__CPROVER_ensures(RET == g_L[P_MESSAGE])
-__CPROVER_ensures(n > 0 && RET >= 0 ==> s[STORED(RET, n)] == 0)
-__CPROVER_ensures(n > 0 && RET >= 0 && WITNESS_IN(s, STORED(RET, n)) ==> s[g_w - POFF(s)] != 0)
-__CPROVER_ensures(g_err == (OLD(g_err) || RET < 0))
-__CPROVER_ensures(g_trunc == (OLD(g_trunc) || (RET >= 0 && (size_t)RET >= n)))
-__CPROVER_ensures(g_pieces == OLD(g_pieces) * 8 + P_MESSAGE)
-__CPROVER_ensures(n > 0 && RET >= 0 ==> g_end == POFF(s) + STORED(RET, n))
-__CPROVER_ensures(!(n > 0 && RET >= 0) ==> g_end == OLD(g_end))
+TEXT_CONTRACT(g_L[P_MESSAGE], P_MESSAGE, false)
+__CPROVER_assigns(g_msg_fmt)
 __CPROVER_ensures(g_msg_fmt == fmt)
 ;
 
@@ -166,24 +159,24 @@ __CPROVER_ensures(1)
 ;
 
 #define D_OK(ob) (!g_derr && g_dlen >= 1 && g_dlen <= AWS_DATE_TIME_STR_MAX_LEN && g_dlen < (ob)->capacity - (ob)->len)
+#define D_POS(ob) (POFF((ob)->buffer) + OLD((ob)->len))
 int aws_date_time_to_utc_time_str(const struct aws_date_time *dt, enum aws_date_format fmt, struct aws_byte_buf *output_buf)
 __CPROVER_requires(__CPROVER_r_ok(dt, sizeof(*dt)))
 __CPROVER_requires(__CPROVER_rw_ok(output_buf, sizeof(*output_buf)))
 __CPROVER_requires(output_buf->len <= output_buf->capacity)
 __CPROVER_requires(LINE_RANGE(output_buf->buffer + output_buf->len, output_buf->capacity - output_buf->len))
 __CPROVER_requires(output_buf->capacity > output_buf->len ==> PIECE_STARTS_AT_END(output_buf->buffer + output_buf->len))
-__CPROVER_assigns(D_OK(output_buf) : output_buf->len, output_buf->buffer[output_buf->len + g_dlen])
-__CPROVER_assigns(D_OK(output_buf) && g_w >= POFF(output_buf->buffer) + output_buf->len &&
-                  g_w < POFF(output_buf->buffer) + output_buf->len + g_dlen : output_buf->buffer[g_w - POFF(output_buf->buffer)])
+__CPROVER_assigns(D_OK(output_buf) : output_buf->len)
+__CPROVER_assigns(g_fmt_on && D_OK(output_buf) && g_w >= POFF(output_buf->buffer) + output_buf->len &&
+                  g_w <= POFF(output_buf->buffer) + output_buf->len + g_dlen : g_line[g_w])
 __CPROVER_assigns(g_end, g_err, g_pieces)
 __CPROVER_ensures(RET == AWS_OP_SUCCESS || RET == AWS_OP_ERR)
 __CPROVER_ensures((RET == AWS_OP_SUCCESS) == (!g_derr && g_dlen >= 1 && g_dlen <= AWS_DATE_TIME_STR_MAX_LEN &&
                                              g_dlen < output_buf->capacity - OLD(output_buf->len)))
 __CPROVER_ensures(RET != AWS_OP_SUCCESS ==> output_buf->len == OLD(output_buf->len))
 __CPROVER_ensures(RET == AWS_OP_SUCCESS ==> output_buf->len == OLD(output_buf->len) + g_dlen)
-__CPROVER_ensures(RET == AWS_OP_SUCCESS ==> output_buf->buffer[output_buf->len] == 0)
-__CPROVER_ensures(RET == AWS_OP_SUCCESS && g_w >= POFF(output_buf->buffer) + OLD(output_buf->len) &&
-                  g_w < POFF(output_buf->buffer) + output_buf->len ==> output_buf->buffer[g_w - POFF(output_buf->buffer)] != 0)
+__CPROVER_ensures(g_fmt_on && RET == AWS_OP_SUCCESS && g_w == D_POS(output_buf) + g_dlen ==> g_line[g_w] == 0)
+__CPROVER_ensures(g_fmt_on && RET == AWS_OP_SUCCESS && g_w >= D_POS(output_buf) && g_w < D_POS(output_buf) + g_dlen ==> g_line[g_w] != 0)
 __CPROVER_ensures(g_err == (OLD(g_err) || RET != AWS_OP_SUCCESS))
 __CPROVER_ensures(g_pieces == OLD(g_pieces) * 8 + P_TIMESTAMP)
 __CPROVER_ensures(RET == AWS_OP_SUCCESS ==> g_end == POFF(output_buf->buffer) + output_buf->len)
@@ -240,7 +233,7 @@ __CPROVER_requires(__CPROVER_is_fresh(fd, sizeof(*fd)))
 __CPROVER_requires(fd->total_length == 0 || __CPROVER_is_fresh(fd->log_line_buffer, fd->total_length))
 __CPROVER_requires(g_fmt_on && g_end == 0 && !g_trunc && !g_err && g_pieces == 0)
 __CPROVER_requires(g_L[5] == 3 && g_L[7] == 1)
-__CPROVER_requires(fd->total_length > 0 ==> g_line == fd->log_line_buffer)
+__CPROVER_requires(fd->total_length > 0 ==> __CPROVER_pointer_equals(g_line, fd->log_line_buffer))
 __CPROVER_assigns(fd->amount_written)
 __CPROVER_assigns(fd->total_length > 0 : __CPROVER_object_upto(fd->log_line_buffer, fd->total_length))
 __CPROVER_assigns(__CPROVER_object_whole(&tl_logging_thread_id))
@@ -253,7 +246,7 @@ __CPROVER_ensures(RET != AWS_OP_SUCCESS ==> fd->amount_written == OLD(fd->amount
 __CPROVER_ensures(RET == AWS_OP_SUCCESS ==> fd->amount_written >= 1 && fd->amount_written <= fd->total_length)
 /* the line */
 __CPROVER_ensures(LINE_CLAIMED ==> fd->amount_written == g_end)
-__CPROVER_ensures(LINE_CLAIMED ==> fd->log_line_buffer[fd->amount_written - 1] == '\n')
+__CPROVER_ensures(LINE_CLAIMED && g_w == fd->amount_written - 1 ==> fd->log_line_buffer[g_w] == '\n')
 __CPROVER_ensures(LINE_CLAIMED && g_w < fd->amount_written ==> fd->log_line_buffer[g_w] != 0)
 /* the pieces */
 __CPROVER_ensures(RET == AWS_OP_SUCCESS && !g_trunc ==> g_pieces == (fd->subject_name != NULL ? 01234567u : 0123567u))
